@@ -9,7 +9,7 @@ os.chdir(HERE)
 def main():
     args = sys.argv[1:]
     if not args:
-        print('usage: check <property-id> [--tier quick|thorough] | --selftest')
+        print('usage: check <property-id> [--tier quick|thorough] | --selftest [group] | --replay <file>')
         return 2
     tier = os.environ.get('VERIF_TIER', 'quick')
     if '--tier' in args:
@@ -23,6 +23,15 @@ def main():
     if args[0] == '--selftest':
         from kvc import selftest
         return selftest.main(args[1:])
+    if args[0] == '--replay':
+        from kvc.checker import replay_file
+        try:
+            return replay_file(args[1])
+        except Exception:
+            import traceback
+            traceback.print_exc()
+            print('CHECKER-FAULT: uncaught exception while replaying (this is not a property violation)')
+            return 3
     from kvc.checker import run_property
     try:
         return run_property(args[0], tier, seed)
